@@ -48,7 +48,10 @@ func toJ(r result) *jresult {
 	j := &jresult{Kind: r.Kind, Err: r.Err}
 	for _, s := range r.Series {
 		js := jseries{Labels: s.Labels}
-		for _, p := range s.Pts {
+		for i, p := range s.Pts {
+			if i >= 200 {
+				break // diagnostics only: keep the case lines small
+			}
 			js.Pts = append(js.Pts, jpoint{p.T, fval(p.V)})
 		}
 		j.Series = append(j.Series, js)
